@@ -436,11 +436,57 @@ func c17ParseValue(dec *json.Decoder) (*c17J, error) {
 }
 
 // enc is the driver's token encoding; sorted: object members by key (stable).
+// enc(true) is the canonical form used for every comparison: last-wins normal
+// form (what a decode into a Go map keeps of duplicated keys) with members sorted.
+// enc(false) is the raw tree in source order.
 func (v *c17J) enc(sorted bool) string {
 	var sb strings.Builder
+	if sorted {
+		v = v.norm()
+	}
 	v.encTo(&sb, sorted)
 	return sb.String()
 }
+
+// norm: every object, at every depth, in last-wins normal form (Lean: dedupLast).
+func (v *c17J) norm() *c17J {
+	c := *v
+	c.arr, c.keys = nil, nil
+	for i, e := range v.arr {
+		if v.kind == 'o' {
+			shadowed := false
+			for j := i + 1; j < len(v.keys); j++ {
+				shadowed = shadowed || v.keys[j] == v.keys[i]
+			}
+			if shadowed {
+				continue
+			}
+			c.keys = append(c.keys, v.keys[i])
+		}
+		c.arr = append(c.arr, e.norm())
+	}
+	return &c
+}
+
+func (v *c17J) hasDup() bool {
+	for i, e := range v.arr {
+		if v.kind == 'o' {
+			for j := i + 1; j < len(v.keys); j++ {
+				if v.keys[j] == v.keys[i] {
+					return true
+				}
+			}
+		}
+		if e.hasDup() {
+			return true
+		}
+	}
+	return false
+}
+
+// encModel: what is handed to the Lean model – the value as the real code decodes it
+// (objects in last-wins normal form, member order kept).
+func (v *c17J) encModel() string { return v.norm().enc(false) }
 
 func (v *c17J) encTo(sb *strings.Builder, sorted bool) {
 	switch v.kind {
@@ -906,7 +952,7 @@ func c17Mutate(rng *rand.Rand, v *c17J) (*c17J, string) {
 	n := ns[rng.Intn(len(ns))]
 	set := func(o *c17J) { *n = *o }
 	for try := 0; try < 6; try++ {
-		switch rng.Intn(12) {
+		switch rng.Intn(13) {
 		case 0:
 			if n.kind == 'i' || n.kind == 'd' {
 				set(&c17J{kind: 's', str: n.str})
@@ -975,6 +1021,25 @@ func c17Mutate(rng *rand.Rand, v *c17J) (*c17J, string) {
 			if n.kind == 's' {
 				set(c17GenInt(rng))
 				return v, "int-for-string"
+			}
+		case 12:
+			if n.kind == 'o' && len(n.arr) > 0 {
+				// duplicate a key: the copy either shadows (appended last) or is shadowed (put first)
+				i := rng.Intn(len(n.arr))
+				var e *c17J
+				if rng.Intn(2) == 0 {
+					e = c17GenAny(rng, 1)
+				} else {
+					e = n.arr[rng.Intn(len(n.arr))].clone()
+				}
+				if rng.Intn(2) == 0 {
+					n.keys = append(n.keys, n.keys[i])
+					n.arr = append(n.arr, e)
+					return v, "duplicate-key-last"
+				}
+				n.keys = append([]string{n.keys[i]}, n.keys...)
+				n.arr = append([]*c17J{e}, n.arr...)
+				return v, "duplicate-key-shadowed"
 			}
 		case 10:
 			if n.kind == 'i' {
@@ -1377,7 +1442,7 @@ func c17RunCases(c *Ctx, cases []*c17Case) {
 		}
 		reqs := make([][]string, 0, hi-lo)
 		for _, cs := range cases[lo:hi] {
-			reqs = append(reqs, []string{"C17.case", cs.t.enc(), cs.v.enc(false)})
+			reqs = append(reqs, []string{"C17.case", cs.t.enc(), cs.v.encModel()})
 		}
 		reps := c.Drv.AskBatch(reqs)
 		for i, cs := range cases[lo:hi] {
@@ -1426,6 +1491,9 @@ func c17Judge(c *Ctx, cs *c17Case, reply string, report bool) []string {
 		r.hist("check:" + g.check)
 		r.hist("filter:" + g.ferr)
 		r.hist("root:" + string(cs.t.kind))
+		if cs.v.hasDup() {
+			r.hist("has-duplicate-key")
+		}
 		if changed {
 			r.hist("filter-changed-value")
 		}
@@ -1533,10 +1601,15 @@ func c17Judge(c *Ctx, cs *c17Case, reply string, report bool) []string {
 			What: "FilterJson changed more than dropping members / rewriting integral floats",
 			Impl: string(g.out), Expect: string(cs.text)})
 	}
-	if g.ferr != "fatal" && !c17MembersOK(cs.t, g.outTree) {
+	if g.ferr != "fatal" && !c17MembersOK(cs.t, g.outTree.norm()) {
 		fail(Violation{Kind: "property", Key: "C17:struct-members" + sfx,
 			What: "a (non-fatally) filtered value has a struct-typed position whose members are not exactly the declared ones",
 			Impl: string(g.out)})
+	}
+	if g.check == "ok" && g.ferr != "ok" {
+		fail(Violation{Kind: "property", Key: "C17:valid-but-filter-error" + sfx,
+			What: "a value that validates cleanly is filtered (to the same type) with an error: " + g.detail,
+			Impl: g.ferr, Expect: "ok"})
 	}
 	if g.check == "ok" && g.check2 != "ok" {
 		fail(Violation{Kind: "property", Key: "C17:filter-invalidates-valid-value" + sfx,
@@ -1547,12 +1620,31 @@ func c17Judge(c *Ctx, cs *c17Case, reply string, report bool) []string {
 		rs := cs.u.real(cs.src)
 		if sv, _ := c17Check(rs, cs.u.lookup, cs.text); sv == "ok" {
 			r.hist("fva-evaluated")
+			// narrowing chain on the real code: filter to the source type, then to the
+			// destination, versus filtering to the destination directly
+			o1, _, _ := c17Filter(rs, cs.u.lookup, cs.text)
+			o2, _, _ := c17Filter(rt, cs.u.lookup, o1)
+			if t2, err := c17ParseJSON(o2); err != nil || t2.enc(true) != g.outTree.enc(true) {
+				rep := c.Drv.Ask("C17.assign", cs.t.enc(), cs.src.enc())
+				if f := strings.Split(rep, " "); len(f) == 4 && f[3] == "false" {
+					if report {
+						r.hist("chain-differs:not-pureNarrow")
+					}
+				} else {
+					fail(Violation{Kind: "property", Key: "C17:narrowing-chain" + sfx,
+						What: fmt.Sprintf("value valid for %s: filtering to %s and then to %s differs from filtering to %s directly although the assignment is a pure narrowing",
+							cs.src.mro(), cs.src.mro(), cs.t.mro(), cs.t.mro()),
+						Impl: string(o2), Expect: string(g.out)})
+				}
+			} else if report {
+				r.hist("chain-agrees")
+			}
 			if g.check2 != "ok" {
 				// classify by the model: is this (dst, src) pair one of the known holes?
 				rep := c.Drv.Ask("C17.assign", cs.t.enc(), cs.src.enc())
 				f := strings.Split(rep, " ")
 				key := "C17:fva:unexpected" + sfx
-				if len(f) == 3 && f[1] == "false" {
+				if len(f) == 4 && f[1] == "false" {
 					key = "C17:fva:F9"
 					if strings.Contains(f[2], "F10") {
 						key = "C17:fva:F10"
@@ -1600,7 +1692,7 @@ func c17Shrink(c *Ctx, cs *c17Case, key string) *c17Case {
 			return nil
 		}
 		n := &c17Case{u: cs.u, t: cs.t, v: tree, text: []byte(sb.String()), how: cs.how + "+shrunk", src: cs.src}
-		rep := c.Drv.Ask("C17.case", n.t.enc(), n.v.enc(false))
+		rep := c.Drv.Ask("C17.case", n.t.enc(), n.v.encModel())
 		for _, k := range c17Judge(c, n, rep, false) {
 			if k == key {
 				return n
@@ -1679,13 +1771,24 @@ func c17Witnesses(c *Ctx, u *c17Universe) {
 	fva := func(d, s, text string) {
 		cs := &c17Case{u: u, t: get(d), src: get(s), text: []byte(text), how: "witness"}
 		cs.v, _ = c17ParseJSON(cs.text)
-		rep := c.Drv.Ask("C17.case", cs.t.enc(), cs.v.enc(false))
-		c17Judge(c, cs, rep, true)
+		rep := c.Drv.Ask("C17.case", cs.t.enc(), cs.v.encModel())
+		keys := c17Judge(c, cs, rep, true)
+		c.Res.note("witness %s <- %s on %s: real code reports %v", d, s, text, keys)
 	}
 	fva("map<file>", "map<string>", `{"a/b":"x"}`)                   // F9  (f9_map_file_from_map_string)
 	fva("map<int>", "A", `{"a":1,"x":"s"}`)                          // F10 (f10_map_from_struct_extra_member)
 	fva("map<FS>", "map<SS>", `{"a/b":{"f1":"x","xs":[],"c":true}}`) // F9 through structs
 	fva("FS", "SS", `{"f1":"x","xs":[1,2],"c":true,"zz":1}`)         // no hole: must hold
+	fva("map", "A", `{"a":1,"x":null}`)                              // chain_fails_map_from_struct (not a pure narrowing)
+	// the compiler guarantees Ty.wf: a struct with a duplicated member name is rejected
+	if _, _, _, err := syntax.ParseSourceBytes([]byte("struct DUP(\n    int a,\n    string a,\n)\n"),
+		"c17_dup.mro", nil, false); err == nil {
+		c.Res.violate(Violation{Kind: "property", Key: "C17:duplicate-member-accepted",
+			What:  "the compiler accepts a struct with two members of the same name (the theorems assume Ty.wf)",
+			Input: "struct DUP(int a, string a)"})
+	} else {
+		c.Res.hist("wf:duplicate-member-rejected-by-compiler")
+	}
 }
 
 // c17Assignability: every ordered pair of the universe's types (and the full
@@ -1753,10 +1856,14 @@ func c17Assignability(c *Ctx, u *c17Universe) {
 		r.count("assign\x00"+d.enc()+"\x00"+s.enc(), d.kind != 'b' || s.kind != 'b')
 		if got {
 			r.hist("assignable-pairs")
+			if f := strings.Split(rep, " "); len(f) == 4 {
+				r.hist("assignable-pairs:noHole=" + f[1])
+				r.hist("assignable-pairs:pureNarrow=" + f[3])
+			}
 		} else {
 			r.hist("non-assignable-pairs")
 		}
-		if f := strings.Split(rep, " "); len(f) != 3 || f[0] != fmt.Sprint(got) {
+		if f := strings.Split(rep, " "); len(f) != 4 || f[0] != fmt.Sprint(got) {
 			r.violate(Violation{Kind: "correspondence", Key: "C17:assign-mismatch",
 				What:  "IsAssignableFrom differs from the model",
 				Input: map[string]string{"dst": d.mro(), "src": s.mro(), "dst_enc": d.enc(), "src_enc": s.enc(), "mro_source": u.src},
